@@ -17,7 +17,8 @@ func init() {
 			"(encoding/binary, utils/binary readers, LEB128/variable-width decoders, strconv.Parse*; followed through local variables, struct fields assigned from such values anywhere in the package, and parameters that receive them) " +
 			"is reachable only across a comparison on that value, is clamped with min(), or is in the reviewed table naming the bound that covers it; " +
 			"(no-explicit-panic) every panic call in the decoder packages is in the reviewed table (input-independent); (buffer-discipline) no bufio view is used after the reader moved on and no byte-wise string loop iterates by runes. " +
-			"Not decided: index-out-of-range on all inputs, termination and running time (seed C53a, an exponential matcher, is not detected), allocation totals.",
+			"(star-exhaustion-aborts) the ignore-pattern matcher's retry loop — the loop in which dowild calls itself for every suffix of the text and keeps the result — never ends in the plain no-match code: text exhaustion returns the abort-all code that stops every enclosing star, the invariant that keeps the wildmatch port polynomial. " +
+			"Not decided: index-out-of-range on all inputs, termination and running time in general, allocation totals.",
 		Assumptions: []string{},
 		Run:         runC53,
 	})
@@ -360,6 +361,8 @@ func runC53(c *Ctx) {
 	m := checkRangeStringByteIndex(c, "buffer-discipline", decoderPkgs)
 	c.Extra["bufio_views_examined"] = n
 	c.Extra["string_range_loops_examined"] = m
+	checkStarExhaustionAborts(c, "star-exhaustion-aborts")
+	c.Floor("star-exhaustion-aborts", 1)
 }
 
 // nodeHasBuiltinCall: call itself is a call of the named builtin.
